@@ -23,9 +23,13 @@ def fixed_names():
             st.sampled_from(list("abX _-.") + ["é"]),
             st.just(other),
             st.just("\\" + q),
-            st.sampled_from(["\\a", "\\n"]),
+            st.sampled_from(["\\a", "\\n", "\\\\"]),
         )
-        return st.lists(atom, min_size=0, max_size=5).map(lambda xs: [q, "".join(xs)])
+        def close(xs):
+            raw = "".join(xs)
+            return [q, raw + "a" if raw.endswith("\\") else raw]  # no trailing backslash (it would escape the delimiter)
+
+        return st.lists(atom, min_size=0, max_size=5).map(close)
 
     return st.sampled_from(["'", '"']).flatmap(build)
 
